@@ -67,3 +67,43 @@ Print Assumptions C07_retain_flags.
 Example C07_example : chunk_plan 7 (Some 3) false =
   [mkChunk 0 3 true true; mkChunk 3 3 true true; mkChunk 6 1 false false].
 Proof. vm_compute. reflexivity. Qed.
+
+(* ---- the ENTRY POINTS (added): the engine runs an accepted backward / mtl_backward call issues are
+   exactly the chunk plan of m = total number of output scalars (resp. number of losses) — hence
+   exactly ceil(m/k) sweeps of 1..k rows covering m rows, never batched when k = 1 or m = 1 ---- *)
+From TJ Require Import Num Linalg Autojac Traverse.
+From TJ.proofs Require Import AutojacBasics EntrySpec C20Proofs C13Proofs SweepCountProofs.
+Section C07entry.
+Context {T : Type} (N : Num T) (P : prog T) (A : list (list T) -> res (list T)).
+Theorem C07_backward_sweeps : forall tensors ord k retain s d' s',
+  ord <> [] -> 1 <= total_rows P tensors ->
+  backward_model N P A tensors ord k retain s = (Ok d', s') ->
+  plan_log_spec tensors ord (total_rows P tensors) k (new_sweeps s s').
+Proof. exact (backward_sweeps_spec N P A). Qed.
+Theorem C07_backward_sequential : forall tensors ord k retain s d' s',
+  ord <> [] -> 1 <= total_rows P tensors ->
+  backward_model N P A tensors ord k retain s = (Ok d', s') ->
+  k = Some 1 \/ total_rows P tensors = 1 ->
+  forall w, In w (firstn (length (s_log s') - length (s_log s)) (s_log s')) -> sw_batched w = false.
+Proof. exact (backward_sequential N P A). Qed.
+Theorem C07_mtl_sweeps : forall losses features tasks shared k retain s d' s',
+  shared <> [] ->
+  mtl_backward_model N P A losses features tasks shared k retain s = (Ok d', s') ->
+  exists trunk heads,
+    s_log s' = trunk ++ heads ++ s_log s /\
+    plan_log_spec features shared (length losses) k trunk /\
+    heads = rev (map (task_sweep features retain) (combine tasks losses)) /\
+    length heads = length losses /\
+    (forall w, In w heads -> sw_rows w = 1 /\ sw_batched w = false /\ sw_retain w = retain).
+Proof. exact (mtl_sweeps_spec N P A). Qed.
+Theorem C07_mtl_sequential : forall losses features tasks shared k retain s d' s',
+  shared <> [] ->
+  mtl_backward_model N P A losses features tasks shared k retain s = (Ok d', s') ->
+  k = Some 1 \/ length losses = 1 ->
+  forall w, In w (firstn (length (s_log s') - length (s_log s)) (s_log s')) -> sw_batched w = false.
+Proof. exact (mtl_sequential N P A). Qed.
+End C07entry.
+Print Assumptions C07_backward_sweeps.
+Print Assumptions C07_backward_sequential.
+Print Assumptions C07_mtl_sweeps.
+Print Assumptions C07_mtl_sequential.
